@@ -7,9 +7,11 @@ from common import compare_gen, is_real_finite, same_float
 ID = 'C06'
 LEAN_MODULES = ['Dhlldv.Props.C06']
 PROP_MODULES = ['Dhlldv.Props.C06']
-PROVED = ['LDV(v1, ...) = LDV(v2, ...) for all real arguments and every iteration budget (the generated definition never reads the parameter)']
+PROVED = ['LDV(v1, ...) = LDV(v2, ...) for all real arguments and every iteration budget (the generated definition never reads the parameter)',
+          'LDV > 0 on E for every line-speed argument, every step budget of the code and every model budget covering it: induction through the four damped loops '
+          '(no loop exhausts the budget, the friction factor is positive at every iterate, result >= lower-limit velocity (B + sqrt(B^2+4C))/2 > 0)']
 HYPOTHESES = []
-MONITORED = ['finite and positive on E (theorem planned: see DESIGN §5 C06)', 'default budget within 0.1 % of the converged solution: compared on the real code with '
+MONITORED = ['finiteness on doubles', 'default budget within 0.1 % of the converged solution: compared on the real code with '
              'an independent fixed-point solve of the four implicit friction-factor equations (Eqns 8.11-1..13) to 1e-13']
 RULE = ('E points incl. small pipes / heavy solids / d either side of 0.015 Dp and of 2 mm, the fines corner (Dp <= 0.15, d at its lower bound, rhos >= 3, Cvs <= 0.04); '
         'each with several vls arguments incl. 0.1, 1, 4.3, 10; non-trivial = distinct governing-limit classes (very small / small / rough / lower limit / blend)')
